@@ -315,6 +315,11 @@ class OpaqueSignature(Signature):
     def __bytearray__(self):
         return self.data
 
+    def __copy__(self):
+        sig = super(OpaqueSignature, self).__copy__()
+        sig.data = self.data[:]
+        return sig
+
     def __sig__(self):
         return self.data
 
@@ -462,6 +467,11 @@ class OpaquePubKey(PubKey):  # pragma: no cover
 
     def __iter__(self):
         yield self.data
+
+    def __copy__(self):
+        pk = super(OpaquePubKey, self).__copy__()
+        pk.data = self.data[:]
+        return pk
 
     def __pubkey__(self):
         return NotImplemented
